@@ -348,6 +348,10 @@ fn handle(vm: &mut Option<Vm>, line: &str) -> String {
                         v.verif_set_regs(acc, ep, (f[1].parse().unwrap(), f[2].parse().unwrap()), bp);
                     }
                     "gc" => v.run_gc(),
+                    "used" => {
+                        let u = v.verif_heap().used_size();
+                        out.push_str(&format!(" USED:{}", u));
+                    }
                     _ => out.push_str(" BADOP"),
                 }
             }
